@@ -100,6 +100,7 @@ namespace occa {
   template <class TM>
   void trie<TM>::clear() {
     root.leaves.clear();
+    root.valueIndex = -1;
     values.clear();
     defrost();
   }
